@@ -69,7 +69,7 @@ def jobs(tier):
 
 
 UNWIND = 8
-LEVEL = 'bounded'
+LEVEL = 'other'      # bounded stand-ins only: never reported as proof
 TRUSTED = ['tools/cxx2c.py lowering']
 ASSUMPTIONS = [
     'stacks, smart pointers, the seen-set (std::set with deref_less), the work list (std::vector), the state area and the virtual op::next / op_origin::set_next are modelled (props/c10/clos_model*.h)',
